@@ -410,6 +410,10 @@ def handleC09 (op : String) (j : Json) : Option Json :=
       some (obj [("holds", Json.bool ((rOpJ (view a)).compress == (rOpJ (view b)).compress)),
                  ("reversible", Json.bool (reversible a)), ("clean", Json.bool (clean a))])
     | _, _ => some (errJ "bad-op")
+  | "rev.shape" =>
+    match rOpOfJson (getObj j "o"), rOpOfJson (getObj j "r") with
+    | some o, some r => some (obj [("holds", Json.bool (undoesShape o r))])
+    | _, _ => some (errJ "bad-op")
   | "rev.order" =>
     let ups := (getArr j "ups").mapM (fun e =>
       match e with
